@@ -141,7 +141,7 @@ func c13pMain(args map[string]string) {
 				for _, where := range []string{"s", "mkey", "mval"} {
 					b := make([]byte, l)
 					for k := range b {
-						b[k] = byte(1 + k%31)
+						b[k] = byte(1 + k%7) // (no short escape form: six bytes each)
 					}
 					m := dynamicpb.NewMessage(c.env.rroot)
 					switch where {
